@@ -2,6 +2,7 @@
   C10 — passphrase files stand alone and bound the work they demand.
 -/
 import Proofs.FileLabels
+import AgeModel.CliIdent
 namespace AgeModel
 namespace Props.C10
 open Format
@@ -160,6 +161,123 @@ theorem two_scrypt_need_equal_labels (P : Prims) (tape : Bytes) (rs : List Recip
     rw [hl2e, sortLabels_singleton, ← hl1] at hl2
     simp only [List.cons.injEq, and_true] at hl2
     exact ⟨tp1, tp2, salt1, lab1, t1', salt2, lab2, t2', e1, e2, hlen1, hlen2, hl2.symm⟩
+
+/-! ## the command line tool's own passphrase identity (cmd/age `LazyScryptIdentity`)
+    and its passphrase-protected identities file (`EncryptedIdentity`) -/
+
+open CliIdent in
+/-- The CLI asks for the passphrase exactly when the header is a lone passphrase
+    stanza — for every header, every callback behaviour. -/
+theorem cli_prompt_iff (P : Prims) (ask : Option Bytes) (m : Nat) (ss : List Stanza) :
+    (lazyUnwrap P ask m ss).2 = true ↔ ∃ s, ss = [s] ∧ s.type = tScrypt := by
+  unfold lazyUnwrap
+  split
+  · rename_i h
+    constructor
+    · intro hf; simp at hf
+    · rintro ⟨s, rfl, _⟩; exact absurd rfl h.2
+  · match ss with
+    | [] => simp
+    | [s] =>
+      simp only
+      by_cases ht : s.type = tScrypt
+      · simp only [ht, ne_eq, not_true_eq_false, if_false]
+        constructor
+        · intro _; exact ⟨s, rfl, ht⟩
+        · intro _
+          cases ask with
+          | none => rfl
+          | some pw =>
+            simp only
+            split
+            · rfl
+            · split <;> rfl
+      · simp only [ne_eq, ht, not_false_eq_true, if_true]
+        constructor
+        · intro hf; simp at hf
+        · rintro ⟨s', hs, ht'⟩
+          simp only [List.cons.injEq, and_true] at hs
+          subst hs; exact absurd ht' ht
+    | _ :: _ :: _ =>
+      simp
+
+open CliIdent in
+/-- a passphrase stanza that is not alone: fatal, without asking and without a key -/
+theorem cli_passphrase_stanza_alone (P : Prims) (ask : Option Bytes) (m : Nat) (ss : List Stanza)
+    (hs : ∃ s ∈ ss, s.type = tScrypt) (hlen : ss.length ≠ 1) :
+    lazyUnwrap P ask m ss = (.fatal, false) := by
+  unfold lazyUnwrap
+  have : ss.any (fun s => s.type = tScrypt) = true := by
+    rw [List.any_eq_true]
+    obtain ⟨s, hm, ht⟩ := hs
+    exact ⟨s, hm, by simp [ht]⟩
+  simp [this, hlen]
+
+open CliIdent in
+/-- on a passphrase-encrypted file the CLI never answers "incorrect identity": a wrong
+    passphrase (or no terminal) is a fatal error, so no other identity is tried and the
+    operation fails at the header -/
+theorem cli_wrong_passphrase_fatal (P : Prims) (ask : Option Bytes) (m : Nat) (s : Stanza) (ht : s.type = tScrypt) :
+    (lazyUnwrap P ask m [s]).1 ≠ .incorrect := by
+  unfold lazyUnwrap
+  simp only [List.length_singleton, ne_eq, not_true_eq_false, and_false, if_false, ht]
+  cases ask with
+  | none => simp
+  | some pw =>
+    simp only
+    split
+    · simp
+    · split
+      · simp
+      · rename_i r hr; exact hr
+
+open CliIdent in
+/-- whenever the CLI identity yields a file key, the passphrase typed is non-empty and the
+    library's passphrase identity yields that key from the same stanza (so the
+    work-factor bound `kdf_cost_bounded` and `workfactor_guard` apply to the CLI unchanged) -/
+theorem cli_agrees_with_library (P : Prims) (ask : Option Bytes) (m : Nat) (ss : List Stanza) (k : Bytes)
+    (h : (lazyUnwrap P ask m ss).1 = .key k) :
+    ∃ pw s, ask = some pw ∧ pw ≠ [] ∧ ss = [s] ∧ (Identity.scrypt pw m).unwrap P [s] = .key k := by
+  unfold lazyUnwrap at h
+  split at h
+  · simp at h
+  · match ss, h with
+    | [s], h =>
+      simp only at h
+      split at h
+      · simp at h
+      · cases ask with
+        | none => simp at h
+        | some pw =>
+          simp only at h
+          split at h
+          · simp at h
+          · rename_i hpw
+            split at h
+            · simp at h
+            · rename_i r hr
+              simp only at h
+              refine ⟨pw, s, rfl, ?_, rfl, h⟩
+              intro e; subst e; simp [newScryptIdentityOK] at hpw
+    | [], h => simp at h
+    | _ :: _ :: _, h => simp at h
+
+open CliIdent in
+/-- a passphrase-protected identities file is opened (and the passphrase asked for) at most
+    once: after a call that opened it, no later call asks again, whatever it is given -/
+theorem cli_encrypted_identity_asks_once (P : Prims) (F : Protected) (ask ask' : Option Bytes) (ss ss' : List Stanza)
+    (ids : List Identity) (asked : Bool) (h : F.open_ ask = (some ids, asked)) :
+    ((EncId.new.unwrap P F ask ss).1.unwrap P F ask' ss').2.2.1 = false := by
+  unfold EncId.unwrap EncId.new
+  simp only [h]
+
+open CliIdent in
+/-- a failed attempt (wrong passphrase, no terminal, damaged file) caches nothing -/
+theorem cli_encrypted_identity_failure_keeps_nothing (P : Prims) (F : Protected) (ask : Option Bytes) (ss : List Stanza)
+    (asked : Bool) (h : F.open_ ask = (none, asked)) :
+    EncId.new.unwrap P F ask ss = (EncId.new, .fatal, asked, false) := by
+  unfold EncId.unwrap EncId.new
+  simp only [h]
 
 /-- non-vacuity: a concrete non-canonical work factor ("05") and a canonical one ("18") -/
 example : parseWorkFactor [48, 53] = none ∧ parseWorkFactor [49, 56] = some 18 ∧ parseWorkFactor [43, 53] = none := by decide
